@@ -552,7 +552,19 @@ impl Rig {
                 let pend = &out[&h];
                 let p = pend[(k % pend.len() as u64) as usize];
                 let w = self.live.as_ref().unwrap().widths.get((h - 1) as usize).copied().unwrap_or(0) as usize;
-                let block = if to == 0 { self.sample_block(h, w, p) } else { None };
+                // to: 0 the sample, 1 timeout, 2 non-timeout P2p error, 3 not a Block, 4 block of another CID,
+                //     5 right CID around a container that is not a sample
+                let block = match to {
+                    0 => self.sample_block(h, w, p),
+                    3 => Some(vec![0xff; 40]),
+                    4 => self.sample_block(h + 1, w, p),
+                    5 => SampleId::new(p.0, p.1, h).ok().and_then(|id| {
+                        let c: cid::CidGeneric<12> = id.into();
+                        let cid = Cid::read_bytes(&c.to_bytes()[..]).ok()?;
+                        Some(Block { cid: cid.to_bytes(), container: vec![0xff; 10] }.encode_to_vec())
+                    }),
+                    _ => None,
+                };
                 let responder = {
                     let mut sh = self.shared.lock().unwrap();
                     let rs = sh.responders.get_mut(&(h, p)).unwrap();
@@ -563,11 +575,14 @@ impl Rig {
                     }
                     r
                 };
-                match block {
-                    Some(bytes) => {
+                match (to, block) {
+                    (2, _) => {
+                        responder.fatal();
+                    }
+                    (_, Some(bytes)) => {
                         responder.ok(bytes);
                     }
-                    None => {
+                    (_, None) => {
                         responder.timed_out();
                     }
                 }
@@ -694,9 +709,25 @@ pub fn gen_all(rng: &mut Rng, cfg: &GenCfg, out: &mut Emitter) {
                 let burst = if rng.chance(1, 3) { rng.range(2, 16) } else { 1 };
                 let b = rng.below(8);
                 let timeouts = rng.chance(1, 3);
-                for _ in 0..burst {
-                    let to = if timeouts && rng.chance(1, 4) { 1 } else { 0 };
-                    out.op(format!("ans b={b} k={} to={to}", rng.below(16)), if to == 1 { "ans/timeout" } else { "ans/ok" }, true);
+                // rarely the last answer of the burst is neither a sample nor a timeout (fatal for the worker)
+                let bad_last = rng.chance(1, 20);
+                for i in 0..burst {
+                    let to = if bad_last && i + 1 == burst {
+                        rng.range(2, 5)
+                    } else if timeouts && rng.chance(1, 4) {
+                        1
+                    } else {
+                        0
+                    };
+                    let tag = match to {
+                        0 => "ans/ok",
+                        1 => "ans/timeout",
+                        2 => "ans/p2p-error",
+                        3 => "ans/not-a-block",
+                        4 => "ans/foreign-cid",
+                        _ => "ans/bad-container",
+                    };
+                    out.op(format!("ans b={b} k={} to={to}", rng.below(16)), tag, true);
                 }
             } else if roll < 65 {
                 // insert: new head (contiguous / after a gap), a fill of a gap below the head, or an invalid one
